@@ -25,6 +25,43 @@ CHECKS = {
    technique="runtime monitor: output-stream equality (silence = equality) and per-unit call logs vs reference server over the whole unit-id space, RTU broadcast included",
    text="All 256 unit ids x eight kinds x valid / handler-failing / malformed against handler maps of 0-4 units, in sequences so that a silent frame is followed by an answered one; broadcast writes must reach every configured unit exactly once and never be answered.",
    note="Trusts reference server; attribution of an unexpected reply to a silent request uses unique transaction ids (MBAP) or the unit id (RTU, no authorization)."),
+
+ "C03": dict(engine="sim", cat="exploration", design="3/C03",
+   technique="runtime monitor: bytes written by the production client loop per submitted request compared with a reference encoder (or required to be empty); public constructor compared with its model over its argument space",
+   text="Requests over the boundary lattice (2000/2001, 125/126, 1968/1969/1976/1977, 123/124, 65535/65536 values, overflowing ranges) are submitted through Channel, CallbackSession and FfiChannel on MBAP and RTU sessions; the transport log between submission and completion must be exactly one reference frame, or empty with an error result. Frame length maxima are recorded. AddressRange::try_from is compared with its model on a stratified sample (quick) or the full 2^32 space (thorough).",
+   note="Trusts the reference encoder; transaction ids may step by more than one only across requests the task itself rejected."),
+ "C04": dict(engine="sim", cat="exploration", design="3/C04",
+   technique="runtime monitor: request results compared with a reference response decoder over crafted reply PDUs (differential oracle), future- and callback-style result paths",
+   text="For every request kind and lattice range the peer answers with the genuine reply, every function byte, every truncation/extension, byte-count and echo variations, all exception codes with 0-2 trailing bytes, replies of other requests and random PDUs, with the correct transaction id; the completion must be exactly what the reference decoder prescribes (values indexed from the start address, that exception code, or a non-exception error).",
+   note="RTU replies the reference RTU receiver cannot delimit or rejects only need to fail with a non-exception error. Byte-count-field lies with otherwise exact data are accepted either way."),
+ "C05": dict(engine="sim", cat="exploration", design="3/C05",
+   technique="runtime monitor: metamorphic partition test - same byte stream under 10 read partitions (with injected delays and command-induced cancellation of the pending read) must give identical records, and match the reference framing + server",
+   text="Server and client roles. Streams of valid/invalid/empty/maximum frames, optionally ended by a malformed MBAP header followed by a valid write that must never execute. Partitions include 1-byte reads and reads ending at / around the 260-byte buffer edge; the number of executions that reached the compaction path is measured.",
+   note="The compaction counter comes from a harness model of the buffer and is coverage information only."),
+ "C06": dict(engine="sim", cat="fault_enumeration", design="3/C06",
+   technique="fault enumeration under a runtime monitor: all 1-bit, all 2-bit (short frames), burst <=16-bit and CRC-byte corruptions of base frames delivered to the production RTU parser; independent bitwise-CRC reference receiver decides acceptance; emission monitor re-parses every emitted frame",
+   text="Each corrupted frame gets its own session (after a sentinel) in server role (10 request frames) and client role (18 response / exception frames), delivered whole, byte-per-byte and randomly chunked. No handler call, reply or accepted response may result unless the independent receiver finds a CRC-valid frame. The enumerated classes are exhaustive per base frame as stated in the evidence.",
+   note="The CRC reference is self-checked against published vectors at start-up. Behaviour after a rejected frame on the same link is unspecified and not tested."),
+ "C07": dict(engine="sim", cat="exploration", design="3/C07",
+   technique="runtime monitoring under hostile input: panic hook + rustc overflow checks/debug assertions, transport poll counter (spin), virtual-time and wall-clock watchdogs (subprocess workers), follow-up session and follow-up request as liveness probes",
+   text="Grammar-aware mutations of valid traffic and raw random bytes, server and client roles, MBAP and RTU, all 36 decode levels with a formatting subscriber, random partitions; after the hostile stream the session must end on EOF/shutdown/handle drop, a fresh session on the same handler map must answer, the client handle must still complete requests and honour shutdown.",
+   note="A non-yielding loop is reported only after the case fails to finish alone twice with a 10x budget. Multi-session isolation on a real server is in C15."),
+ "C10": dict(engine="sim", cat="exploration", design="3/C10",
+   technique="runtime monitor: exactly-once completion log keyed by request id + sequential reference of the client semantics giving the allowed result classes, over random event scripts in virtual time",
+   text="Scripts of 5-40 events over submit (three API styles, several handles), reply variants, partial reply, garbage, read error, EOF, write error, enable, disable, set-decode, shutdown, clone/drop handle, task abort and time advances around the deadlines; every request must complete exactly once with a class the history allows (no-connection only while down, timeout only after the deadline, shutdown only when the task is gone or try_send failed).",
+   note="The outer reconnect loop is composed from hooked primitives in the same order as the production task (harness code); the production task is exercised black-box in C13/C14."),
+ "C11": dict(engine="sim", cat="exploration", design="3/C11",
+   technique="runtime monitor: unique-payload history checker (every peer reply carries a unique serial) + write-log order / id-arithmetic / one-outstanding checks",
+   text="Sessions of 1-200 queued reads and sessions of 70000 requests crossing the id wrap; peer sends genuine, stale-by-d, future-by-d, duplicate, only-stale, late or no replies and unsolicited frames carrying the next id while idle. A request's result must be the first frame with its id completely delivered while it was outstanding, else a timeout.",
+   note="Lateness is decided from measured delivery instants; exact ties with a deadline are skipped and counted."),
+ "C12": dict(engine="sim", cat="exploration", design="3/C12",
+   technique="runtime monitor in virtual time: completion instants checked against t_tx+T from the transport log; exhaustive outcome-sequence enumeration for the consecutive-timeout limit",
+   text="Per-request timeouts from 0 ns to 1 h, replies arriving never / whole / split around the deadline; a timeout must complete within [deadline, deadline+1ms], an earlier complete reply must succeed with its data, the next request must still work. All outcome sequences over {timeout, success, exception, bad reply} up to length 4 (quick) / 6 (thorough) x limits {none,1,2,3,4}: the session must end exactly at the N-th consecutive timeout.",
+   note="1 ms timer granularity and exact ties are accepted either way (documented in DESIGN.md 2.5)."),
+ "C20": dict(engine="sim", cat="exploration", design="3/C20",
+   technique="differential runtime monitor: same script executed at decode level nothing, maximum, random and with a level change injected at every position; full observation records (bytes+virtual timestamps, results+instants, handler log, state, session end) must be equal",
+   text="Server scripts (C01/C17 generators re-partitioned with gaps, level change at every chunk gap incl. mid-frame) and client scripts (1-8 requests with genuine/exception/bad/never/split/stale replies, level change before each request and one millisecond into each outstanding transaction), with a formatting subscriber so that all decode paths execute.",
+   note="Only the decode-level command itself is excluded from the record."),
 }
 
 NOT_YET = {
